@@ -6,7 +6,7 @@ from harness import aggfam, core, gen
 
 RULE = ("fault enumeration: for each run configuration (nonparametric / gaussian, 1-3 estimands, 1-3 levels, with and without features and "
         "regularisation) EVERY fit position of the run (median, lower, upper of every estimand and level) x {SolverError, UserWarning} is injected "
-        "at the first attempt of that fit, and once more one layer down at every per-quantile solve inside the solver (a failure in the middle of a fit); the run must complete and every returned table must equal the fault-free run (1e-6 relative: the LP is "
+        "at the first attempt of that fit (and, without regularisation, at several fits of the same run: first and last, two in a row, all of them), and once more one layer down at every per-quantile solve inside the solver (a failure in the middle of a fit); the run must complete and every returned table must equal the fault-free run (1e-6 relative: the LP is "
         "the same up to a positive scaling of the objective); the retry call's captured keyword arguments are compared with the first attempt's. "
         "plus one regularised fit on which the real solver reports an inaccurate solution (no injection). distinct = (configuration, fit position, failure kind); non-trivial = the fault was actually raised and a retry happened")
 
@@ -64,6 +64,14 @@ def worker(job):
             kwargs["normalize_weights"] = False
             state["raised"] = True
             return
+        if layer == "multi" and target is not None and k in target:
+            # several failing fits in one run: each of them must be retried on its own
+            state["raised"] = True
+            state["n_raised"] = state.get("n_raised", 0) + 1
+            if kind == "SolverError":
+                raise cvxpy.error.SolverError("injected by the C20 check (one of several)")
+            run_impl.emit_inaccuracy_warning()
+            state["warning_not_raised"] = True
         if layer == "fit" and target is not None and k == target:
             state["raised"] = True
             if kind == "SolverError":
@@ -87,7 +95,7 @@ def worker(job):
     with run_impl.SolverCapture(fault=fault, keep_arrays=False, inner_fault=inner_fault):
         h = aggfam.harvest(case)
     p = case["params"]
-    res = {"job": [seed, kw, target, kind, layer], "ok": h["ok"], "exc": h.get("exc"), "n_first": state["first_attempts"], "n_inner": state.get("n_inner", 0), "raised": state["raised"],
+    res = {"job": [seed, kw, target, kind, layer], "ok": h["ok"], "exc": h.get("exc"), "n_first": state["first_attempts"], "n_inner": state.get("n_inner", 0), "raised": state["raised"], "n_raised": state.get("n_raised", 0),
            "retries": state["retries"], "warning_not_raised": state.get("warning_not_raised", False), "firsts": state.get("firsts", []), "tables": tables_of(h) if h["ok"] else None,
            "cfg": {"pi": p["pi_method"], "est": p["estimands"], "alphas": p["prediction_intervals"], "features": p["features"],
                    "lambda": p["model_parameters"].get("lambda_", 0), "fe": p["fixed_effects"]}}
@@ -184,6 +192,11 @@ def run(chk):
         # several quantiles, where a failure can leave coefficients of the earlier quantiles behind)
         for k in range(b["n_inner"]):
             jobs.append((s, kw, k, "SolverError" if k % 2 == 0 else "UserWarning", "solve"))
+        if not kw.get("model_parameters", {}).get("lambda_") and b["n_first"] >= 2:
+            # more than one failing fit in the same run (first and last; two in a row)
+            n_ = b["n_first"]
+            for tg, kind in (([0, n_ - 1], "SolverError"), ([n_ // 2 - 1 if n_ > 2 else 0, n_ // 2 if n_ > 2 else 1], "UserWarning"), (list(range(n_)), "SolverError")):
+                jobs.append((s, kw, sorted(set(tg)), kind, "multi"))
         if kw.get("model_parameters", {}).get("lambda_"):
             # regularised: the retried fit solves a differently scaled problem (finding F20), so "same tables" is additionally
             # checked against the run in which exactly that fit -- and no other -- is solved without normalisation
@@ -205,6 +218,15 @@ def run(chk):
         if not o["ok"]:
             chk.violation(f"{kind} injected at fit {k} of {o['cfg']}: the run fails with {o['exc'][0]}: {o['exc'][1][:150]}", replay,
                           {"kind": "run-fails", "exc": o["exc"][0]})
+            continue
+        if layer == "multi":
+            if len(o["retries"]) != len(k) or o.get("n_raised") != len(k):
+                chk.violation(f"{kind} injected at the fits {k} of one run: {o.get('n_raised')} failures were raised and {len(o['retries'])} retries without weight normalisation "
+                              f"were made (one retry per failing fit expected)", replay, {"kind": "retry-count", "multi": True})
+                continue
+            diff = compare_tables(b["tables"], o["tables"])
+            if diff:
+                chk.violation(f"{kind} at the fits {k} of {o['cfg']}: {diff}", replay, {"kind": "tables-differ", "regularised": False, "multi": True})
             continue
         if len(o["retries"]) != 1:
             extra = " (the solver's 'Solution may be inaccurate' warning, issued as the installed cvxpy issues it, was not turned into an error)" if o.get("warning_not_raised") else ""
